@@ -301,6 +301,54 @@ impl Check for C17Delivery {
             cleanup();
             return fail(format!("files {:?}: output of the joint run differs from the concatenation of the single-file runs ({}): {} vs {}", cut_pos, multi.res.short(), esc_trunc(&multi.stdout, 400), esc_trunc(&concat, 400)));
         }
+        // the same files given as one directory argument: the order of the files is the file
+        // system's, but every file is still processed as a unit with its own index-in-file
+        {
+            let sub = dir.join("as-dir");
+            let _ = std::fs::create_dir_all(&sub);
+            let mut sub_paths = Vec::new();
+            for (k, p) in parts.iter().enumerate() {
+                let sp = sub.join(format!("{}{}.json", ["m", "c", "x", "a"][k % 4], k));
+                let _ = std::fs::write(&sp, p);
+                sub_paths.push(sp.to_str().unwrap().to_string());
+            }
+            let mut a = sv(&["--select=.=v", "--select=&index-in-file=j", "--select=&file-name=f"]);
+            a.extend(sv(POS_ARGS));
+            a.extend(oo.clone());
+            let mut per_file: Vec<Vec<u8>> = Vec::new();
+            for sp in &sub_paths {
+                let mut b2 = a.clone();
+                b2.push(sp.clone());
+                per_file.push(run(&b2, b"").stdout);
+            }
+            let mut b2 = a.clone();
+            b2.push(sub.to_str().unwrap().to_string());
+            let d = run(&b2, b"");
+            if !d.res.is_ok() {
+                cleanup();
+                return fail(format!("run on a directory argument failed: {}", d.res.short()));
+            }
+            // the directory run must be some permutation of the per-file outputs, each intact
+            let mut rest: &[u8] = &d.stdout;
+            let mut used = vec![false; per_file.len()];
+            let mut progress = true;
+            while !rest.is_empty() && progress {
+                progress = false;
+                for (i, pf) in per_file.iter().enumerate() {
+                    if !used[i] && !pf.is_empty() && rest.starts_with(pf) {
+                        rest = &rest[pf.len()..];
+                        used[i] = true;
+                        progress = true;
+                        break;
+                    }
+                }
+            }
+            let all_used = per_file.iter().zip(used.iter()).all(|(pf, u)| *u || pf.is_empty());
+            if !rest.is_empty() || !all_used {
+                cleanup();
+                return fail(format!("files {:?} given as a directory: the output {} is not a sequence of the per-file outputs {:?}", cut_pos, esc_trunc(&d.stdout, 400), per_file.iter().map(|p| esc_trunc(p, 120)).collect::<Vec<_>>()));
+            }
+        }
         // &index counts through all files
         let mut a = sv(&["--select=&index=i", "--select=&index-in-file=j"]);
         a.extend(oo.clone());
@@ -367,7 +415,15 @@ impl Check for C17Wide {
             }),
         ];
         let chunk = prop_oneof![4 => 1usize..9, 2 => prop::sample::select(vec![15usize, 16, 17, 63, 64, 65, 255, 256, 4095, 4096, 4097, 8191, 8192, 8193]), 1 => 1usize..20000];
-        (input, vec(chunk, 1..5), prop_oneof![Just(0usize), 2usize..6], 0u8..4).prop_map(|(input, chunks, interrupt_every, pipeline)| CaseWide { input, chunks, interrupt_every, pipeline }).boxed()
+        (input, vec(chunk, 1..5), prop_oneof![Just(0usize), 2usize..6], 0u8..4, prop::bool::weighted(0.08))
+            .prop_map(|(mut input, chunks, interrupt_every, pipeline, bom)| {
+                if bom {
+                    // a byte order mark is three bytes of noise like any other, for stdin and for files
+                    input.0.splice(0..0, [0xEFu8, 0xBB, 0xBF]);
+                }
+                CaseWide { input, chunks, interrupt_every, pipeline }
+            })
+            .boxed()
     }
     fn check(&self, c: &CaseWide) -> CaseResult {
         let bytes = &c.input.0;
@@ -412,6 +468,7 @@ impl Check for C17Wide {
         CaseResult::Pass(
             Info::new(bytes.len() >= 2 && !whole.stdout.is_empty())
                 .class_if(!bytes.is_ascii(), "non_ascii")
+                .class_if(bytes.starts_with(&[0xEF, 0xBB, 0xBF]), "byte_order_mark")
                 .class_if(std::str::from_utf8(bytes).is_err(), "invalid_utf8")
                 .class_if(bytes.len() > 8192, "longer_than_8KiB")
                 .class_if(c.chunks.iter().any(|x| *x >= 4095), "buffer_sized_chunks")
